@@ -101,6 +101,29 @@ class DropoutCase:
         return out
 
 
+class DropoutIllegalCase:
+    """p outside [0, 1] is not a probability: 'zeroes each element with probability p' cannot be honoured, so the layer must
+    refuse it (PyTorch: 'dropout probability has to be between 0 and 1') instead of silently doing something else"""
+    prop = PROP
+
+    def __init__(self, spec):
+        self.spec = spec
+        self.sig = sig_of("Dropout-illegal", spec, None)
+
+    def run(self, env):
+        from synapgrad import nn
+        out = E.Outcome()
+        p = self.spec["p"]
+        try:
+            m = nn.Dropout(p)
+            y = m(T()(env.arr("x", (2,)), requires_grad=True))
+            out.fact("a drop probability outside [0, 1] is rejected", False,
+                     "Dropout(%r) was constructed and returned a tensor of shape %s" % (p, tuple(y.shape)))
+        except (ValueError, TypeError, RuntimeError, AssertionError):
+            out.fact("a drop probability outside [0, 1] is rejected", True)
+        return out
+
+
 class BNCase:
     prop = PROP
 
@@ -212,6 +235,8 @@ def enumerate_specs(tier):
             if tier == "quick" and n == 3 and h[0] in "tT":
                 continue        # modules start in training mode: a leading train() adds nothing at this length
             specs.append({"kind": "dropout", "p": 0.5, "shape": [2], "history": h + "f", "nested": True})
+    for p in (-0.5, 1.5, 2.0):
+        specs.append({"kind": "dropout_illegal", "p": p})
     specs.append({"kind": "dropout", "p": 0.5, "shape": [2, 2], "history": "f"})
     specs.append({"kind": "dropout", "p": 0.3, "shape": [1, 2, 1], "history": "ef"})
     specs.append({"kind": "dropout", "p": 0.875, "shape": [3], "history": "f"})
@@ -242,6 +267,8 @@ def enumerate_specs(tier):
 def build(spec):
     spec = dict(spec)
     kind = spec.pop("kind")
+    if kind == "dropout_illegal":
+        return DropoutIllegalCase(spec)
     return DropoutCase(spec) if kind == "dropout" else BNCase(spec)
 
 
